@@ -19,19 +19,19 @@ def main(run):
     bounds = [('A', 4, 2, 2), ('B2', 3, 2, 2), ('F', 4, 2, 2)] if quick else [('A', 5, 2, 2), ('B1', 4, 3, 3), ('B2', 4, 2, 2), ('F', 5, 2, 2)]
     rng = random.Random(run.seed)
     trees, _ = F.model_phase(run, bounds, ['InvC03'], faults=FAULTS)
-    trees = F.cap(trees, 4000 if quick else 150000, rng, run)
-    items = [{'t': t, 'cfgs': F.rotate_cfgs(i, rng, 2 if quick else 6)} for i, t in enumerate(trees)]
+    trees = F.cap(trees, 4000 if quick else 40000, rng, run)
+    items = [{'t': t, 'cfgs': F.rotate_cfgs(i, rng, 2 if quick else 3)} for i, t in enumerate(trees)]
     for t in trees:
         if F.nontrivial_tree(t):
             run.nontrivial.add(F.tree_key(t))
     run.extra['faulty_trees_replayed'] = sum(1 for t in trees if any(s['fault'] for s in F.subtrees(t)))
     run.evaluations += F.drive_and_judge(run, 's2c', items, ['flatten', 'c03extra'])
-    rt = F.random_trees(run.seed + 2, 1500 if quick else 25000)
+    rt = F.random_trees(run.seed + 2, 1500 if quick else 12000)
     for i, t in enumerate(rt):
         if i % 3 == 0:
             F.inject_fault(t, rng, FAULTS)
     run.extra['faulty_trees_replayed'] += sum(1 for t in rt if any(s['fault'] for s in F.subtrees(t)))
-    items = [{'t': t, 'cfgs': F.rotate_cfgs(i, rng, 2 if quick else 4)} for i, t in enumerate(rt)]
+    items = [{'t': t, 'cfgs': F.rotate_cfgs(i, rng, 2 if quick else 3)} for i, t in enumerate(rt)]
     for t in rt:
         run.nontrivial.add(F.tree_key(t))
     run.evaluations += F.drive_and_judge(run, 'c2s', items, ['flatten', 'c03extra'])
